@@ -14,6 +14,7 @@ import (
 	"fmt"
 	"go/ast"
 	"go/token"
+	"sort"
 	"strings"
 
 	. "verifharness/genlib"
@@ -298,4 +299,52 @@ func printFeeCapFloor(afiles []File) {
 	fmt.Println("(* the ante chain rejects a message whose fee cap / gas price ITSELF is below the base fee (false: it tests an")
 	fmt.Println("   effective cap that is never below the base fee, so such a message is admitted and charged at the base fee) *)")
 	fmt.Printf("Definition c03_ante_rejects_fee_cap_below_base_fee : bool := %s.\n", CoqBool(enforced))
+}
+
+// ---------------------------------------------------------------- the standard precompiles 0x01..0x09
+//
+// precompile.InitPrecompiles fills Nibiru's precompile map with the standard contracts of ONE upstream
+// table of go-ethereum (vm.PrecompiledContracts<Fork>): which one(s) it reads the CONTRACTS from.  The
+// address lists (vm.PrecompiledAddresses<Fork>) are not price tables and are not printed.  Same-package
+// helpers are followed.
+
+func printStdPrecompiles(pfiles []File) {
+	funcs := map[string]*ast.FuncDecl{}
+	for _, fl := range pfiles {
+		for _, d := range fl.F.Decls {
+			if fd, ok := d.(*ast.FuncDecl); ok {
+				funcs[fd.Name.Name] = fd
+			}
+		}
+	}
+	names := map[string]bool{}
+	var walk func(fd *ast.FuncDecl, depth int)
+	walk = func(fd *ast.FuncDecl, depth int) {
+		if fd == nil || fd.Body == nil || depth == 0 {
+			return
+		}
+		ast.Inspect(fd.Body, func(x ast.Node) bool {
+			switch v := x.(type) {
+			case *ast.SelectorExpr:
+				if strings.HasPrefix(v.Sel.Name, "PrecompiledContracts") {
+					names[v.Sel.Name] = true
+				}
+			case *ast.CallExpr:
+				if id, ok := v.Fun.(*ast.Ident); ok {
+					if h, ok := funcs[id.Name]; ok && !strings.HasPrefix(id.Name, "Precompile") {
+						walk(h, depth-1)
+					}
+				}
+			}
+			return true
+		})
+	}
+	walk(funcs["InitPrecompiles"], 3)
+	var l []string
+	for n := range names {
+		l = append(l, CoqString(n))
+	}
+	sort.Strings(l)
+	fmt.Println("(* the upstream go-ethereum table(s) InitPrecompiles copies the standard precompiled contracts 0x01..0x09 from *)")
+	fmt.Printf("Definition c03_std_precompile_tables : list string := [%s].\n", strings.Join(l, "; "))
 }
